@@ -13,7 +13,8 @@ use hcommon::templates::*;
 use hcommon::*;
 use mahf::components::evaluation::PopulationEvaluator;
 use mahf::components::generative::{AcoGeneration, AsPheromoneUpdate, MinMaxPheromoneUpdate, PheromoneMatrix};
-use mahf::problems::Sequential;
+use mahf::identifier::{Global, Identifier, A as IdA, B as IdB};
+use mahf::problems::{Evaluate, Sequential};
 use mahf::state::common::Populations;
 use mahf::verif::Phase;
 use mahf::{Component, Configuration, Individual, Random, SingleObjective, State};
@@ -226,6 +227,55 @@ fn run_upd(a: &[Sx]) -> String {
 /// One generation → evaluation → update step on the real components.
 /// `(step kind (pm ..) (dist ..) (par a b) (ants k) (seed s))`
 fn run_step(a: &[Sx]) -> String {
+    run_step_with::<Global>(a, Decoy::None)
+}
+
+/// An evaluator that measures something else than the tour length (a surrogate some other part of a larger
+/// configuration would use). It is registered under every identifier the step does NOT ask for.
+#[derive(Clone, Copy, PartialEq)]
+enum Decoy { None, Hops, Const, Inv }
+struct DecoyEval(Decoy);
+impl Evaluate for DecoyEval {
+    type Problem = P;
+    fn evaluate(&mut self, problem: &P, _state: &mut State<P>, individuals: &mut [Individual<P>]) {
+        for i in individuals {
+            let t = i.solution().clone();
+            let v = match self.0 {
+                // number of "long" hops (closing edge not counted)
+                Decoy::Hops => 1.0 + t.windows(2).filter(|w| problem.dist[w[0]][w[1]] > 1.0).count() as f64,
+                Decoy::Const | Decoy::None => 1.0,
+                // prefers LONG tours
+                Decoy::Inv => { let l = problem.f(&t); if l.is_finite() && l >= 0.0 { 1.0 / (1.0 + l) } else { 0.5 } }
+            };
+            i.set_objective(SingleObjective::try_from(v).unwrap());
+        }
+    }
+}
+fn insert_eval_as<I: Identifier>(state: &mut State<'static, P>, want: bool, decoy: Decoy) {
+    if want {
+        state.insert_evaluator_as::<I>(Sequential::<P>::new());
+    } else if decoy != Decoy::None {
+        state.insert_evaluator_as::<I>(DecoyEval(decoy));
+    }
+}
+
+/// The same step composed from the public components the way `heuristics::aco::aco::<P, I>` wires it, under
+/// evaluator identifier `id` (`g` = Global, `a`, `b`): the tour-length evaluator is registered under `id`, a decoy
+/// evaluator (`none` = nothing) under the two other identifiers; the evaluation step is what
+/// `ConfigurationBuilder::evaluate_with::<I>()` creates.
+/// `(cstep (eval id decoy) kind (pm ..) (dist ..) (par a b) (ants k) (seed s))`
+fn run_cstep(a: &[Sx]) -> String {
+    let (_, e) = a[0].head().unwrap();
+    let decoy = match e[1].atom().unwrap() { "none" => Decoy::None, "hops" => Decoy::Hops, "const" => Decoy::Const, "inv" => Decoy::Inv, x => panic!("decoy {x}") };
+    match e[0].atom().unwrap() {
+        "g" => run_step_with::<Global>(&a[1..], decoy),
+        "a" => run_step_with::<IdA>(&a[1..], decoy),
+        "b" => run_step_with::<IdB>(&a[1..], decoy),
+        x => panic!("identifier {x}"),
+    }
+}
+
+fn run_step_with<I: Identifier>(a: &[Sx], decoy: Decoy) -> String {
     let kind = parse_kind(&a[0]);
     let (n, pm) = parse_mat(&a[1]);
     let (_, d) = parse_mat(&a[2]);
@@ -235,7 +285,18 @@ fn run_step(a: &[Sx]) -> String {
     let seed = a[5].head().unwrap().1[0].nat().unwrap();
     let r = (move || -> String {
         let problem = tsp_of(n, &d);
-        let mut state = base_state(&problem, n, &pm, seed);
+        let mut state: State<P> = State::new();
+        state.insert(Populations::<P>::new());
+        state.populations_mut().push(Vec::new());
+        state.insert(Random::new(seed));
+        let me = std::any::TypeId::of::<I>();
+        insert_eval_as::<Global>(&mut state, me == std::any::TypeId::of::<Global>(), decoy);
+        insert_eval_as::<IdA>(&mut state, me == std::any::TypeId::of::<IdA>(), decoy);
+        insert_eval_as::<IdB>(&mut state, me == std::any::TypeId::of::<IdB>(), decoy);
+        // the evaluation step of the colony: `evaluate_with::<I>()`
+        let eval = Configuration::<P>::builder().evaluate_with::<I>().build_component();
+        eval.init(&problem, &mut state).unwrap();
+        state.insert(make_pm(n, &pm));
         let Ok(upd) = update_component(&kind) else { return "ctor-err".into() };
         let gen = AcoGeneration::new::<P>(ants, alpha, beta, 1.0);
         match catch(|| gen.execute(&problem, &mut state)) {
@@ -243,10 +304,14 @@ fn run_step(a: &[Sx]) -> String {
             _ => return "gen-panic".into(),
         }
         let ts = current_tours(&state);
-        // the harness' Tsp refuses a NaN tour length (malformed distance matrices only)
-        match catch(|| PopulationEvaluator::new::<P>().execute(&problem, &mut state)) {
+        // the harness' Tsp refuses a NaN tour length (malformed distance matrices only); an `Err` of the evaluation
+        // step (no evaluator found under the identifier) is reported the same way
+        match catch(|| eval.execute(&problem, &mut state)) {
             Some(Ok(())) => {}
             _ => return list(["eval-panic".to_string(), tours_s(&ts), witness(n, &ts)]),
+        }
+        if state.populations().current().iter().any(|i| !i.is_evaluated()) {
+            return list(["eval-panic".to_string(), tours_s(&ts), witness(n, &ts)]);
         }
         let objs = tagged("objs", state.populations().current().iter().map(|i| fx(i.objective().value())));
         match catch(|| upd.execute(&problem, &mut state)) {
@@ -393,7 +458,7 @@ fn run_args(a: &[Sx]) -> (String, u32, u32, u32, u64) {
 /// Runs a case; generation loops go through the guarded worker process.
 fn run_case(guard: &mut Guard, input: &Sx) -> String {
     match input.head().unwrap().0 {
-        "gen" | "step" => guard.run(&input.render()),
+        "gen" | "step" | "cstep" => guard.run(&input.render()),
         _ => run_inproc(input),
     }
 }
@@ -405,6 +470,7 @@ fn run_inproc(input: &Sx) -> String {
         "init" => run_init(a),
         "upd" => run_upd(a),
         "step" => run_step(a),
+        "cstep" => run_cstep(a),
         "run" => {
             let (name, v, i, it, seed) = run_args(a);
             template_run(&name, v, i, it, seed, Box::new(|_| false)).0
@@ -632,6 +698,34 @@ fn main() {
         let site = if mmas && ants == 0 { format!("{base}/no-ants") } else if malformed { format!("{base}/malformed") } else { base.to_string() };
         for _ in 0..g.rng.range(3, if a.thorough { 40 } else { 12 }) {
             let input = list(["step".to_string(), kind.clone(), mat_s("pm", n, pm.iter().cloned()), mat_s("dist", n, d.iter().cloned()),
+                format!("(par {} {})", fx(alpha), fx(beta)), format!("(ants {ants})"), format!("(seed {})", g.rng.below(1 << 32))]);
+            let o = emit(&mut out, &site, input);
+            let Some(sx) = Sx::parse(&o) else { break };
+            match sx.head() {
+                Some(("ok", f)) => { pm = parse_mat(&f[3]).1; }
+                _ => break,
+            }
+        }
+    }
+    // 3b. the same chains composed under an evaluator identifier (Global, A, B) the way `aco::aco::<P, I>` does
+    //     (`evaluate_with::<I>()`), with a decoy evaluator under the other identifiers: the tours must reach the
+    //     pheromone update carrying the objective of the REQUESTED evaluator
+    let n_cchain = if a.thorough { 2000 } else { 300 };
+    for c in 0..n_cchain {
+        let mmas = c % 2 == 1;
+        let id = ["a", "b", "g"][(c / 2) % 3];
+        let decoy = if c % 11 == 10 { "none" } else { ["hops", "inv", "const"][(c / 6) % 3] };
+        // instances on which the decoys really differ from the tour length: at least 3 cities, mostly ordinary distances
+        let n = g.size().max(3);
+        let d = g.dist(n, false);
+        let kind = g.kind(mmas, false);
+        let (alpha, beta) = (g.expo(), g.expo());
+        let ants = g.rng.range(1, 8);
+        let default = *g.rng.pick(&[1.0, 0.5, 2.0, 1e-3]);
+        let mut pm = vec![default; n * n];
+        let site = format!("{}-step/eval-{}", if mmas { "mmas" } else { "as" }, if id == "g" { "global" } else { "id" });
+        for _ in 0..g.rng.range(3, if a.thorough { 30 } else { 10 }) {
+            let input = list(["cstep".to_string(), format!("(eval {id} {decoy})"), kind.clone(), mat_s("pm", n, pm.iter().cloned()), mat_s("dist", n, d.iter().cloned()),
                 format!("(par {} {})", fx(alpha), fx(beta)), format!("(ants {ants})"), format!("(seed {})", g.rng.below(1 << 32))]);
             let o = emit(&mut out, &site, input);
             let Some(sx) = Sx::parse(&o) else { break };
